@@ -614,6 +614,53 @@ def t_interp():
     return out
 
 
+def t_solvers():
+    """steady_state.residual_with_linear_continuation: the two censoring rules as scalar functions;
+    solvers.newton_solver / broyden_solver: iteration limits and the structure flags the model relies on"""
+    fn = find_def('blocks/support/steady_state.py', 'residual_with_linear_continuation')
+    inner = [n for n in fn.body if isinstance(n, ast.FunctionDef) and n.name == 'constr_residual']
+    if len(inner) != 1:
+        raise Unsupported('constr_residual')
+    ifs = [n for n in inner[0].body if isinstance(n, ast.If) and ast.unparse(n.test) == 'eval_at_boundary']
+    if len(ifs) != 1:
+        raise Unsupported('eval_at_boundary branch')
+    names = {'lbs': 'lb', 'ubs': 'ub', 'boundary_epsilon': 'eps', 'x': 'x'}
+
+    def where(e, env):
+        if isinstance(e, ast.Call) and ast.unparse(e.func) == 'np.where' and len(e.args) == 3:
+            return f'(if {bexpr(e.args[0], env)} then {expr(e.args[1], env)} else {expr(e.args[2], env)})'
+        raise Unsupported('censoring expression ' + ast.unparse(e)[:60])
+
+    def branch(body):
+        env = dict(names)
+        if len(body) != 2:
+            raise Unsupported('censoring branch length')
+        for st in body:
+            if not (isinstance(st, ast.Assign) and ast.unparse(st.targets[0]) == 'x_censored'):
+                raise Unsupported('censoring statement')
+            env['x_censored'] = where(st.value, env)
+        return env['x_censored']
+    out = f"Definition censor_closed (x lb ub eps : Z) : Z :=\n  {branch(ifs[0].body)}.\n"
+    out += f"Definition censor_open (x lb ub eps : Z) : Z :=\n  {branch(ifs[0].orelse)}.\n"
+    src = ast.unparse(inner[0])
+    calls = [n for n in ast.walk(inner[0]) if isinstance(n, ast.Call) and ast.unparse(n.func) == 'residual']
+    if 'residual_censored = residual(x_censored)' not in src or len(calls) != 1:
+        raise Unsupported('the wrapped residual must be called exactly once, at the censored point')
+    # solver loop constants
+    for nm in ('newton_solver', 'broyden_solver'):
+        sv = find_def('utilities/solvers.py', nm)
+        ssrc = ast.unparse(sv)
+        m = [n for n in ast.walk(sv) if isinstance(n, ast.For) and ast.unparse(n.target) == 'bcount']
+        if len(m) != 1 or not (isinstance(m[0].iter, ast.Call) and ast.unparse(m[0].iter.func) == 'range' and len(m[0].iter.args) == 1):
+            raise Unsupported(f'{nm}: backtrack loop')
+        out += f"Definition {nm}_max_backtracks : Z := {expr(m[0].iter.args[0])}.\n"
+        for needed in ('for count in range(maxcount)', 'if np.max(np.abs(y)) < tol:', 'return (x, y)', 'except ValueError', 'x += dx', 'y = ynew',
+                       "raise ValueError('Too many backtracks, maybe bad initial guess?')", "raise ValueError(f'No convergence after {maxcount} iterations')"):
+            if needed not in ssrc:
+                raise Unsupported(f'{nm}: expected structure `{needed}`')
+    return out
+
+
 TARGETS = {
     'MultiplyBasis': t_multiply_basis,
     'ComputeL': t_compute_l,
@@ -622,6 +669,7 @@ TARGETS = {
     'Containers': t_containers,
     'Kernels': t_kernels,
     'Interp': t_interp,
+    'Solvers': t_solvers,
 }
 
 
